@@ -327,6 +327,16 @@ impl<'a, D: AsRef<[u8]>, P: AsRef<[usize]>> Lend<'a, D, P> {
     }
 
     pub fn new_from(rca: &'a RearCodedList<D, P>, from: usize) -> Self {
+        if from >= rca.len() {
+            // Nothing to return; in particular, there might be no block
+            // containing the starting position
+            return Lend {
+                rca,
+                index: rca.len(),
+                data: &[],
+                buffer: Vec::new(),
+            };
+        }
         let block = from / rca.k;
         let offset = from % rca.k;
 
